@@ -514,12 +514,23 @@ impl FarmWorld {
             .map(|(n, a)| format!("n{}={},{},{},{},{}", n, a.rps, a.epoch, a.comp, a.amt, a.owner))
             .collect();
         let l = &self.led;
+        // the harness's own per-week ledgers (built in `ledger_update` from the real contract's observable deltas only), ALL
+        // weeks, zero entries dropped, weeks ascending; the model driver prints its ghost fields `cutW` / `paidW` / `collW`
+        // in the same format, so every run compares them.  (`r_w`, the pool of a week when it was frozen, has no model
+        // counterpart to print: `totalRewardsForWeek(w)` is cleared by the weekly update of week w+5 in the contract and in
+        // the model alike; the oracle `week_pool_is_cut` ties it to `cut_w`, which is compared here.)
+        let wmap = |m: &BTreeMap<usize, BigUint>| -> String {
+            let v: Vec<String> = m.iter().filter(|(_, a)| !a.is_zero()).map(|(w, a)| format!("{}:{}", w, a)).collect();
+            if v.is_empty() { "-".to_string() } else { v.join(",") }
+        };
         format!(
             "rps={} res={} sup={} last={} pb={} prod={} pct={} act={} pen={},{} bal={},{} blk={} ep={} wk={} \
-             gen={} paid={} pbase={} pboost={} bud={} burn={} und={} lc={} cfg={} g={},{} wks={} U {} T {}",
+             gen={} paid={} pbase={} pboost={} bud={} burn={} und={} lc={} cfg={} g={},{} wks={} U {} T {} \
+             led=cut:{};paid:{};coll:{}",
             s.rps, s.res, s.sup, s.last, s.pb, b01(s.prod), s.pct, b01(s.act), s.pen, s.minep, s.bal_f, s.bal_r,
             self.block, self.epoch, s.week, l.generated, l.paid, l.paid_base, l.paid_boosted, l.base_budget, l.burned,
-            s.und, s.lc, cfg, s.g_last, s.g_first, wks.join(" "), us.join(" "), ts.join(" ")
+            s.und, s.lc, cfg, s.g_last, s.g_first, wks.join(" "), us.join(" "), ts.join(" "),
+            wmap(&l.cut_w), wmap(&l.paid_w), wmap(&l.collected_w)
         )
     }
 
